@@ -466,6 +466,18 @@ func verifC18Setup(m *vk.Monitor) (env *verifC18Env, cleanup func(), ok bool) {
 		defer env.inflight.Add(-1)
 		n, _ := env.probes.LoadOrStore(host, new(atomic.Int64))
 		n.(*atomic.Int64).Add(1)
+		if _, perr := netip.ParseAddr(host); perr == nil {
+			// a query for an IP-literal host: the production resolver answers it locally
+			// with that very address and never touches the network
+			return netutils.ResolveIp46(ctx, d, server, host, network, race)
+		}
+		if strings.HasSuffix(host, "."+verifC18HistSuffix) {
+			// control names of the connection histories (c18_attempts_verif_test.go)
+			if strings.HasPrefix(host, "v") {
+				return &netutils.Ip46{Ip4: netip.MustParseAddr("203.0.113.77")}, nil, nil
+			}
+			return &netutils.Ip46{}, nil, nil
+		}
 		switch host {
 		case verifC18Verified:
 			return &netutils.Ip46{Ip4: netip.MustParseAddr("203.0.113.9")}, nil, nil
@@ -594,10 +606,15 @@ func TestVerifC18(t *testing.T) {
 	m := vk.NewMonitor("C18", "", "exploration",
 		"exhaustive table: 4 dial modes x 6 outbound kinds (direct, block, control-plane-routing, must_rules, user 2, user 7) x dst {v4,v6} x ports {53,443,65535} x sniffed-string classes, "+
 			"plus random host names from the hostname alphabet, through ControlPlane.ChooseDialTarget; and the routeDial leg (re-route + node dialer) for the cells whose re-route decision the statement fixes; "+
+			"connection histories (4 connections per sniffed value and outbound, dae's asynchronous real-domain probe completing between the 1st and the later ones, every connection judged) over a systematic sweep of IP-literal forms "+
+			"(first character 0-9/a-f/A-F/':'/'[', compressed/uncompressed/zero-padded, IPv4-mapped, zone, bracketed, with port, raw and via sniffing.NormalizeDomain) and hex-looking host names; "+
+			"dial attempt sequences at routeDial with the first node dial failing (8 fault classes), every attempt's address and group judged; "+
 			"distinct = one per table cell (mode, outbound, family, port, class) and per (mode, family, shape) of random names; every cell is non-trivial (it is compared with the decision table)")
 	m.Assume("decision table verifC18Table is the property statement; where the statement is silent (re-route in domain mode, dialIp for name targets, which port survives for name:port / literal:port, case/trailing-dot variants of genuine names, names whose resolution returned an empty answer, A-only names asked for an IPv6 destination, degenerate strings) the outcome is recorded, not judged",
 		"domain+ does not re-route ('in domain++ additionally the flow is routed again')",
 		"genuine names are created by production code only: NormalizeAndCacheDnsResp_ / HandleWithResponseWriter_ (resolved through dae, TTL 3600 s so no deadline is near) and the real-domain probe started by ChooseDialTarget with the resolver seam resolveIp46ForRealDomainProbe replaced; realDomainNegativeCacheTTL is raised to 1 h for the run",
+		"connection histories: the probe resolver seam answers a query for an IP-literal host through the production netutils.ResolveIp46 (answered locally, no network), control names *.hist.test are scripted; waiting between the connections is a barrier (what the later connections can expose), never a verdict; a zoned literal (fe80::1%eth0) counts as an IP literal",
+		"dial attempts: node dialers inside production DialerGroups (one group with two nodes and the random policy) are scripted; whether routeDial tries again after a fault is recorded, not judged; each attempt that is made must carry the address the statement demands and go to a group the flow may use; the result's SniffedDomain field is recorded only",
 		"level 2 builds the ControlPlane value by hand (outbound groups with recording fake node dialers, routing matcher compiled from text through the production optimiser pipeline); newControlPlane needs a datapath and is not executed")
 
 	env, cleanup, ok := verifC18Setup(m)
@@ -723,6 +740,17 @@ func TestVerifC18(t *testing.T) {
 
 	// ---- level 2: re-route and node dialer ------------------------------------------
 	verifC18Level2(m, env, classes, dsts, ports)
+
+	tH := time.Now()
+	verifC18LiteralHistories(m, env)
+	tA := time.Now()
+	verifC18DialAttempts(m, env)
+	m.Set("info_wall_ms_histories_attempts", []int64{tA.Sub(tH).Milliseconds(), time.Since(tA).Milliseconds()})
+	m.Require("history_conn_first", "history_conn_later", "history_literal_conn_first", "history_literal_conn_later",
+		"history_literal_firstchar_digit", "history_literal_firstchar_hex-lower", "history_literal_firstchar_hex-upper", "history_literal_firstchar_colon", "history_literal_firstchar_bracket",
+		"history_literal_via_sniffer", "history_literal_with_zone", "history_control_name_dialled_by_name_after_probe",
+		"attempts_connections", "attempts_retry_judged", "attempts_retry_sent_name", "attempts_retry_sent_dst", "attempts_retry_sent_literal",
+		"attempts_fault_ENETUNREACH_dials_2", "attempts_fault_message-network-is-unreachable_dials_2", "attempts_fault_message-no-suitable-address_dials_2")
 
 	verifC18ViaSniffer(m, cp)
 	verifC18KnowledgeHistories(m)
